@@ -71,6 +71,9 @@ fn run_c01(t: &mut Tape, _tier: Tier) -> RunOut {
     mix.rotate_one_in = 12;
     mix.outside_window = true;
     mix.node.odd_scopes = t.chance(3);
+    // forged and legitimate requests in flight together, suspended in a slow provider
+    mix.max_concurrent = 3;
+    mix.prov_pending = 2;
     let mut j = |cx: &DeliveryCtx, out: &mut RunOut| judge_c01(cx, out);
     run_world(t, &mix, &mut j)
 }
